@@ -135,6 +135,9 @@ def parse_config_file(path: str, kwargs: dict):
         elif key.lower() == "out":
             kwargs["outfile"] = val
 
+        elif key.lower() in ["comment", "source"]:
+            kwargs[key.lower()] = val
+
         elif val.lower() == "true":
             kwargs[key.lower()] = True
 
